@@ -465,6 +465,14 @@ def run_case(case, root):
                        for k in range(nw)]
             singles += [[{"site": "in.read", "nth": k, "err": e}]
                         for k in range(nr) for e in ("EIO", "EOF")]
+            # the stream can fail in ways other than OSError (a host object
+            # of the wrong kind): a few positions with other classes
+            r3 = random.Random(int(shape, 16) + 1)
+            for _ in range(min(4, nw)):
+                singles.append([{"site": "out.write",
+                                 "nth": r3.randrange(nw),
+                                 "err": r3.choice(["TYPE", "ATTR", "RUNTIME",
+                                                   "VALUE", "PIPE"])}])
             for plan in singles:
                 if not one(idx, plan):
                     ok = False
